@@ -12,6 +12,8 @@ NEUTRALS = [{'name': 'identity guard on quality and number separately', 'file': 
 
 # changes made by sub-agents that were given only the property text (see /verif/seeded/<id>/): each must stay reported
 SEEDED = [
+    {'name': 'seeded change C16-r5b', 'seed': 'C16-r5b', 'expect': '|COLL-whole|'},
+    {'name': 'seeded change C16-r5a', 'seed': 'C16-r5a', 'expect': '|PITCH-linear|'},
     {'name': 'seeded change C16-r4b', 'seed': 'C16-r4b', 'expect': '|P1-only|'},
     {'name': 'seeded change C16-r3', 'seed': 'C16-r3', 'expect': '|READ|'},
     {'name': 'seeded change C16-r2', 'seed': 'C16-r2', 'expect': '|P1-only|'},
